@@ -45,6 +45,7 @@ func legacySemantic(c *core.Ctx) map[string]legacyVerdict {
 			}
 			return &res{errNil: absint.IsNilValue(r), val: absint.DebugValue(v)}
 		})
+		noteRuns(c, runs)
 		if !complete || len(runs) != 1 {
 			return nil, fmt.Sprintf("%d worlds, complete=%v", len(runs), complete)
 		}
@@ -61,7 +62,7 @@ func legacySemantic(c *core.Ctx) map[string]legacyVerdict {
 	}
 	type pair struct {
 		typ, legacy, current string
-		val, other         func(g *gen.G) absint.Value
+		val, other           func(g *gen.G) absint.Value
 	}
 	pairs := []pair{
 		{"Schema", "id", "$id", str("identifier"), str("other identifier")},
@@ -72,7 +73,9 @@ func legacySemantic(c *core.Ctx) map[string]legacyVerdict {
 	for _, p := range pairs {
 		fn := "(*pkg/schemas." + p.typ + ").UnmarshalJSON"
 		one := func(key string) func(g *gen.G) absint.JSONObj {
-			return func(g *gen.G) absint.JSONObj { return absint.JSONObj{Keys: []string{key}, Vals: []absint.Value{p.val(g)}} }
+			return func(g *gen.G) absint.JSONObj {
+				return absint.JSONObj{Keys: []string{key}, Vals: []absint.Value{p.val(g)}}
+			}
 		}
 		// atoms are numbered per run: build the documents so that "the value" is atom #1 in every run
 		both := func(g *gen.G) absint.JSONObj {
